@@ -12,7 +12,7 @@
 (* both outside the VIEW.                                                 *)
 EXTENDS Failover, Sequences, TLC
 
-CONSTANTS InitISRs, L0, PairSels, MaxOps, MaxPend
+CONSTANTS InitISRs, L0, PairSels, MaxOps, MaxPend, Faults
 VARIABLES last, nOps
 mcvars == <<vars, last, nOps>>
 
@@ -31,7 +31,7 @@ Pair(ps) == CASE ps = "cur" -> <<leader, lepoch>>
 Step(a) == /\ nOps < MaxOps /\ nOps' = nOps + 1 /\ last' = a
 
 MCInit ==
-  /\ exists = TRUE /\ isr \in InitISRs /\ leader = L0
+  /\ exists = TRUE /\ isr \in InitISRs /\ pisr = isr /\ leader = L0
   /\ lepoch = 1 /\ pepoch = 1 /\ e0 = 1
   /\ fo = NoFo /\ armed = FALSE /\ good = {}
   /\ obs = [a |-> "Open", err |-> ""]
@@ -40,11 +40,14 @@ MCInit ==
 
 \* pref = the in-sync follower the election picks (the least loaded broker: the
 \* driver arranges the broker loads accordingly), "none" when nobody is elected
-MCReport(w, ps, pref) ==
+\* ok = FALSE (fault: no Raft entry can be replicated for this request) is only
+\* generated where it matters: when the report would start an election
+MCReport(w, ps, pref, ok) ==
   LET p == Pair(ps) IN
-  /\ DoReportLeader(w, p[1], p[2])
+  /\ ~ok => (Faults /\ ~Stale(p[1], p[2]) /\ WouldElect(w))
+  /\ DoReportLeader(w, p[1], p[2], ok)
   /\ pref = (IF leader' # leader THEN leader' ELSE "none")
-  /\ Step([a |-> "Report", w |-> w, ps |-> ps, l |-> p[1], e |-> p[2], pref |-> pref])
+  /\ Step([a |-> "Report", w |-> w, ps |-> ps, l |-> p[1], e |-> p[2], pref |-> pref, ok |-> ok])
 
 \* a report enters ReportLeader and passes the (leader, epoch) check ...
 MCReportCheck(w, ps) ==
@@ -73,32 +76,36 @@ MCISRApply(i) ==
   /\ DoISRApply(i)
   /\ Step([a |-> "ISRApply", i |-> i])
 
-MCShrink(r, ps) ==
+MCShrink(r, ps, ok) ==
   LET p == Pair(ps) IN
   /\ r # p[1]
-  /\ DoShrinkISR(r, p[1], p[2])
-  /\ Step([a |-> "Shrink", r |-> r, ps |-> ps, l |-> p[1], e |-> p[2]])
+  /\ ~ok => (Faults /\ ~Stale(p[1], p[2]))
+  /\ DoShrinkISR(r, p[1], p[2], ok)
+  /\ Step([a |-> "Shrink", r |-> r, ps |-> ps, l |-> p[1], e |-> p[2], ok |-> ok])
 
-MCExpand(r, ps) ==
+MCExpand(r, ps, ok) ==
   LET p == Pair(ps) IN
-  /\ DoExpandISR(r, p[1], p[2])
-  /\ Step([a |-> "Expand", r |-> r, ps |-> ps, l |-> p[1], e |-> p[2]])
+  /\ ~ok => (Faults /\ ~Stale(p[1], p[2]))
+  /\ DoExpandISR(r, p[1], p[2], ok)
+  /\ Step([a |-> "Expand", r |-> r, ps |-> ps, l |-> p[1], e |-> p[2], ok |-> ok])
 
 MCExpire == DoExpire /\ Step([a |-> "Expire"])
 MCLose == DoLoseControllership /\ Step([a |-> "Lose"])
 MCRemove == pend = <<>> /\ DoRemoveStream /\ Step([a |-> "Remove"])
+MCRebuild == pend = <<>> /\ DoRebuild /\ Step([a |-> "Rebuild"])
 
 MCNext ==
-  \/ \E w \in Reporters, ps \in PairSels, pref \in Replicas \cup {"none"} : MCReport(w, ps, pref)
+  \/ \E w \in Reporters, ps \in PairSels, pref \in Replicas \cup {"none"}, ok \in BOOLEAN : MCReport(w, ps, pref, ok)
   \/ \E w \in Reporters, ps \in PairSels : MCReportCheck(w, ps)
   \/ \E i \in 1..MaxPend, pref \in Replicas \cup {"none"} : MCReportApply(i, pref)
   \/ \E k \in {"shrink", "expand"}, r \in Replicas, ps \in PairSels : MCISRCheck(k, r, ps)
   \/ \E i \in 1..MaxPend : MCISRApply(i)
-  \/ \E r \in Replicas, ps \in PairSels : MCShrink(r, ps)
-  \/ \E r \in Replicas, ps \in PairSels : MCExpand(r, ps)
+  \/ \E r \in Replicas, ps \in PairSels, ok \in BOOLEAN : MCShrink(r, ps, ok)
+  \/ \E r \in Replicas, ps \in PairSels, ok \in BOOLEAN : MCExpand(r, ps, ok)
   \/ MCExpire
   \/ MCLose
   \/ MCRemove
+  \/ MCRebuild
 
 MCSpec == MCInit /\ [][MCNext]_mcvars
 
@@ -116,8 +123,9 @@ StepOK ==
     [] a.a = "Shrink" -> P_ShrinkISR(a.r, a.l, a.e)
     [] a.a = "Expand" -> P_ExpandISR(a.r, a.l, a.e)
     [] a.a = "Remove" -> P_RemoveStream
+    [] a.a = "Rebuild" -> P_Rebuild
     [] OTHER -> P_Quiet
 StepsOK == [][StepOK]_mcvars
 
-MCView == <<exists, isr, leader, lepoch, pepoch, fo, armed, good, pend, taint, nOps>>
+MCView == <<exists, isr, pisr, leader, lepoch, pepoch, fo, armed, good, pend, taint, nOps>>
 =============================================================================
